@@ -25,7 +25,7 @@ def ranks(values, rtol=1e-9, atol=1e-12):
     return out
 
 
-def rel_change(prev, cur, thr, band=1e-12):
+def rel_change(prev, cur, thr, band=1e-12, abs_slack=0.0):
     """Exact evaluation of |(prev - cur) / prev| <= thr on the floats the code compared
     (floats are dyadic rationals).  Returns "na" | "le" | "gt" | "edge"."""
     import math
@@ -39,10 +39,12 @@ def rel_change(prev, cur, thr, band=1e-12):
     lhs = abs(p - c)
     rhs = t * abs(p)
     if rhs == 0:
+        if lhs != 0 and abs_slack and lhs <= Fraction(abs_slack) * abs(p):
+            return "edge"
         return "le" if lhs == 0 else "gt"   # a float difference is zero iff the operands are equal
     # the code evaluates the quotient in floating point: a value within rounding distance of the
     # threshold may fall on either side
-    if abs(lhs - rhs) <= Fraction(band) * rhs:
+    if abs(lhs - rhs) <= Fraction(band) * rhs + Fraction(abs_slack) * abs(p):
         return "edge"
     return "le" if lhs < rhs else "gt"
 
